@@ -256,6 +256,35 @@ class C01(CoreCheck):
             if two:
                 secs.append("Hf3:" + rng.choice(["fu1 fx1", "fu0 fx0 fu1 fx1", "-/fu1"]))
             cases.append(";".join(secs))
+        # the same for the other kinds of batch: several timers that expire in ONE pass of iv_run_timers (equal or past
+        # expiries), several tasks in one round, several events posted before one wake-up: an early handler
+        # unregisters later members of the batch that have not run yet and frees their structs at once (tx / kx / ex =
+        # free + fresh poisoned allocation), sometimes re-registering the fresh struct
+        for _ in range(max(30, n // 8)):
+            be = rng.choice(self.backends)
+            kind = rng.choice(["t", "t", "t", "k", "e"])
+            k = rng.randint(3, 6)
+            ids = list(range(k))
+            if kind == "t":
+                base = rng.choice([0, 0, 1000, 1000000])
+                setup = ["tr%d+%d" % (j, base + rng.choice([0, 0, 0, 1])) for j in ids]
+            elif kind == "k":
+                setup = ["kr%d" % j for j in ids]
+            else:
+                setup = ["er%d" % j for j in ids] + ["ep%d" % j for j in ids]
+            rng.shuffle(setup) if kind != "e" else None
+            secs = ["B" + be, "M8", "S " + " ".join(setup)]
+            un = {"t": "tu", "k": "ku", "e": "eu"}[kind]
+            fx = {"t": "tx", "k": "kx", "e": "ex"}[kind]
+            rr = {"t": "tr%d+0", "k": "kr%d", "e": "er%d"}[kind]
+            for j in rng.sample(ids, rng.randint(1, 3)):
+                acts = []
+                for v in rng.sample([x for x in ids if x != j], rng.randint(1, min(3, k - 1))):
+                    acts += ["%s%d" % (un, v), "%s%d" % (fx, v)]
+                    if rng.random() < 0.25:
+                        acts.append(rr % v)
+                secs.append("H%s%d:%s/-" % (kind, j, " ".join(acts)))
+            cases.append(";".join(secs))
         return cases
 
     def nontrivial(self, case, mo):
@@ -438,6 +467,24 @@ class C07(CoreCheck):
 
     def nontrivial(self, case, mo):
         return (" | E q=" in (mo or "") and " | W1 " in (mo or "")) or "=-1" in (mo or "")
+
+    def gen_cases(self, ctx, rng, n):
+        cases = CoreCheck.gen_cases(self, ctx, rng, n)
+        # work that becomes due while the repeated-deadline kernel timer is ARMED (same far deadline on five consecutive
+        # waits): a chain of self-posts of an iv_event (delivered through the loop's internal task), raw-event posts,
+        # self-re-registering tasks, started from the 6th..8th wake-up, with the waking descriptor going quiet
+        for _ in range(max(12, n // 10)):
+            be = rng.choice(self.backends)
+            d = rng.choice([50000000, 1000000000, 5000000])
+            at = rng.choice([5, 6, 7])
+            start = rng.choice(["ep0", "ep0", "rp0", "kr0", "ep0 rp0"])
+            hf = ["-"] * at + ["ks0= " + start, "-"]
+            secs = ["B" + be, "M%d" % rng.choice([16, 24]), "S fh0i0 fr0 ks0=i er0 rr0 tr0+%d" % d,
+                    "Hf0:" + "/".join(hf), "He0:" + rng.choice(["ep0/ep0/ep0/-", "ep0/-", "ep0 rp0/-", "kr0/-"]),
+                    "Hr0:" + rng.choice(["-", "rp0/-", "ep0/-"]), "Hk0:" + rng.choice(["-", "kr0/-", "ep0/-"]),
+                    "Ht0:eu0 ru0 fu0"]
+            cases.append(";".join(secs))
+        return cases
 
 
 class C09(CoreCheck):
